@@ -31,7 +31,7 @@ pub fn run(ctx: &Ctx) -> i32 {
     let trees = families::plain(w);
     let key = bind::key0();
     // (a) every tree x every route
-    let mut acc = trees.par_iter().enumerate().map(|(ti, m)| {
+    let mut acc = trees.par_iter().enumerate().with_max_len(1).map(|(ti, m)| {
         let mut acc = Acc::new();
         acc.inc("trees");
         let maxn = max_assertions(m).min(4);
@@ -77,7 +77,7 @@ pub fn run(ctx: &Ctx) -> i32 {
 
     // (b) every leaf value of L at every position kind
     let leaves = families::leaf_alphabet();
-    let b = leaves.par_iter().enumerate().map(|(li, v)| {
+    let b = leaves.par_iter().enumerate().with_max_len(1).map(|(li, v)| {
         let mut acc = Acc::new();
         let l = M::Leaf(v.clone()); let t = |s: &str| M::Leaf(V::Text(s.into()));
         let shapes = vec![
@@ -106,7 +106,7 @@ pub fn run(ctx: &Ctx) -> i32 {
 
     // (d) every obscuration pattern of each tree (all subsets of its digests, three actions, removing)
     let wd = if th { 6 } else { 5 };
-    let d = families::plain(wd).par_iter().enumerate().map(|(ti, m)| {
+    let d = families::plain(wd).par_iter().enumerate().with_max_len(1).map(|(ti, m)| {
         let mut acc = Acc::new();
         let e = bind::build(m, 0);
         let ds = m.distinct_digests(); let k = ds.len();
